@@ -5,6 +5,7 @@
 From Coq Require Import List ZArith String Bool.
 From IprV Require Import GenTypes Visitor.
 From IprV.gen Require Import GenCategory GenIface GenVisitor GenAccept.
+From IprV.gen Require Import GenStatics.
 Import ListNotations.
 Local Open Scope string_scope.
 
@@ -59,6 +60,14 @@ Example c06_nonvacuous :
   Nat.ltb 100 (List.length gen_visitor) = true.
 Proof. vm_compute; auto. Qed.
 
+(* No object of static storage duration defined by the library is initialized at run time before main(): each is constexpr
+   (constant-initialized, hence complete before any initializer of any translation unit runs) or a function-local static
+   (initialized on first use).  A client's namespace-scope object may therefore use the library's constants. *)
+Theorem c06_constants_ready_before_main :
+  forallb (fun s => s_constexpr s || s_static_local s) gen_statics = true.
+Proof. vm_compute. reflexivity. Qed.
+
+Print Assumptions c06_constants_ready_before_main.
 Print Assumptions c06_category_is_own_code.
 Print Assumptions c06_accept_selects_own_hook.
 Print Assumptions c06_every_leaf_has_accept.
